@@ -3,7 +3,7 @@
 (* over a menu that contains each transition type, numeric and symbolic     *)
 (* magnitudes, a multi-transition event, a Laurent rate, a saturating rate, *)
 (* a derived parameter and explicit ODE terms.                              *)
-EXTENDS ModelDef, Json
+EXTENDS ModelDef, Json, Decompose
 
 CONSTANT DumpOn,     \* TRUE: print every live state (mode G replays them into PyGOM)
          DumpDerivs  \* TRUE: the printed states also carry the derivative objects of C03
@@ -60,6 +60,9 @@ Dump ==
                        tj    |-> IF DumpDerivs THEN MToTerms(TransJac(CurDef)) ELSE <<>>,
                        tmean |-> IF DumpDerivs THEN VToTerms(TransMean(CurDef)) ELSE <<>>,
                        tvar  |-> IF DumpDerivs THEN VToTerms(TransVar(CurDef)) ELSE <<>>]))
+
+(* beyond the listed properties: decomposing the ODE of any reachable definition and reading it back *)
+InvDecomposeRoundTrip == RoundTrip(Ode(CurDef)) /\ RatesPositive(Ode(CurDef))
 
 \* vacuity guards: the interesting antecedents do occur
 SomeClosed   == ~(Len(procs) >= 2 /\ AllBetweenStates(CurDef))
